@@ -1175,7 +1175,8 @@ func (oc *obligCtx) assertByShape(fn *ssa.Function, in ssa.Instruction, cond ssa
 			}
 			if _, isRT := oc.prov.typeIsRuntime(ct); !isRT {
 				args := e.Site.Common().Args
-				if ct == recvT && caller == root && len(args) > 0 && len(caller.Params) > 0 && rootOf(args[0]) == ssa.Value(caller.Params[0]) && accessPath(args[0]) == caller.Params[0].Name() {
+				// (a receiver captured by a closure of the helper is read back from its cell)
+				if ct == recvT && caller == root && len(args) > 0 && len(caller.Params) > 0 && unspill(args[0]) == ssa.Value(caller.Params[0]) {
 					if !collect(caller, cons, depth+1) {
 						return false
 					}
